@@ -240,3 +240,73 @@ def instances(o, memo=None, out=None):
         for v in _attrs(o).values():
             instances(v, memo, out)
     return out
+
+
+# ---------------------------------------------------------------------------------------------
+# two threads load at the same time (C13: graphs without opt-in objects; C15: patched opt-in graphs)
+class Yielder:
+    """A plain object in thread A's graph: while it is being restored, thread B gets to run (a whole loads call)."""
+    hook = [None]
+
+    def __init__(self, n=0):
+        self.n = n
+
+    def __setstate__(self, state):
+        self.__dict__.update(state)
+        h = Yielder.hook[0]
+        if h is not None:
+            h()
+
+
+Yielder.__module__ = "vf_dyn_classes"
+Yielder.__qualname__ = "Yielder"
+
+
+def two_thread_loads(make_a, make_b, load_a, load_b, same):
+    """make_x() -> bytes to load; load_x(data) -> loaded graph.  The two loads are first run one after the other on one thread
+    (reference), then overlapped on two threads of a vf/sim.py simulation: B's complete loads runs while A's is parked inside the
+    restoration of its Yielder.  Returns None or a short reason."""
+    from .. import sim as simmod
+    setattr(DYN, "Yielder", Yielder)
+    data_a, data_b = make_a(), make_b()
+    Yielder.hook[0] = None
+    ref_a, ref_b = canon(load_a(data_a), ignore=()), canon(load_b(data_b), ignore=())
+    s = simmod.new_sim()
+    out = {}
+    try:
+        def other():
+            try:
+                out["b"] = ("ok", canon(load_b(data_b), ignore=()))
+            except Exception as e:  # noqa
+                out["b"] = ("exc", type(e).__name__)
+        b = s.spawn(other, "thread-B")
+        b.priority = 1
+        fired = [0]
+
+        def hook():
+            if s.me() is s.main and not fired[0]:
+                fired[0] = 1
+                s.yield_()
+        Yielder.hook[0] = hook
+        try:
+            out["a"] = ("ok", canon(load_a(data_a), ignore=()))
+        except Exception as e:  # noqa
+            out["a"] = ("exc", type(e).__name__)
+        Yielder.hook[0] = None
+        s.block(lambda: b.state == "done", 5, what="thread-B-done")
+    finally:
+        Yielder.hook[0] = None
+        errs = s.shutdown()
+        simmod.CUR[0] = None
+    if errs:
+        raise RuntimeError("simulation kernel errors: %r" % (errs,))
+    if not fired[0]:
+        return "overlap-not-reached"
+    for k, ref in (("a", ref_a), ("b", ref_b)):
+        if k not in out:
+            return "thread-%s-never-finished" % k.upper()
+        if out[k][0] != "ok":
+            return "thread-%s-raises-%s" % (k.upper(), out[k][1])
+        if not same(out[k][1], ref):
+            return "thread-%s-result-differs-from-its-sequential-result" % k.upper()
+    return None
